@@ -158,7 +158,13 @@ CATALOGUE = {
         dict(C08_ENUM[2], also=["C06", "C08", "C10"],
              what="built-in action of the iterator with raw siginfo = Channel::send: a send nested right after each successful CAS of a recv() on a full channel (a delivery landing inside the consumer's batch on the consuming thread) completes without waiting for the interrupted thread (CAS loops bounded by --unwindset; a spin is reported as waiting), no panic"),
         dict(C08H("c08_q_send_in_recv_full", "recv() on a full channel interrupted by a send at any shim point (a delivery inside the consumer's batch)", T), also=["C06", "C08"]),
-        H("c03::proofs::c03_lr_delivery_vs_mutator", T, lr=True, timeout=3600, what="a delivery on thread 1 while thread 0 is anywhere inside unregister()/register()", bounds="Lal-Reps K=3"),
+        # cross-thread clause, validated: the registry-level LR harness of C01 (a lock or a
+        # spin inside the delivery sets a shim error flag, judged there as "another error flag is set")
+        dict(C01_LR_REG, tiers=list(T), also=["C01", "C02"]),
+        # the two heavier ones (built-in actions + allocator stubs) are kept outside the registered tiers
+        # until they have been seen to finish inside the per-harness limit (DESIGN 9): ./check C03 --only c03_lr_delivery_vs
+        H("c03::proofs::c03_lr_delivery_vs_unregister", ("deep",), lr=True, timeout=3600, what="a delivery (flag + self-pipe wake + conditional shutdown) on thread 1 while thread 0 is anywhere inside unregister() of one of its actions", bounds="Lal-Reps K=3, 2 threads"),
+        H("c03::proofs::c03_lr_delivery_vs_register", ("deep",), lr=True, timeout=3600, what="the same while thread 0 is anywhere inside register() of another signal", bounds="Lal-Reps K=3, 2 threads"),
     ],
     "C04": [
         H("c04::proofs::c04_seq_chain_all_dispositions", Q, what="previous disposition in {default, ignore, 1-arg handler, 3-arg SA_SIGINFO handler}; deliveries before the take-over, after it, after another signal's first registration, after the last action was removed by id, after a re-registration, after unregister_signal: chained exactly once, first, right convention and arguments", bounds="4 dispositions x 6 arrival instants"),
